@@ -177,6 +177,12 @@ func (m *MemoryFile) URI() string {
 	return memoryProtocol + m.path
 }
 
+// Namespace distinguishes files of separate in-memory filesystems, which have
+// equal URIs.
+func (m *MemoryFile) Namespace() any {
+	return m.fs.files
+}
+
 func (m *MemoryFile) CreateDeleteFunc() func() error {
 	fs := m.fs
 	path := m.path
